@@ -119,6 +119,9 @@ def show(t: Any) -> str:
         return f"elem#{t[1]}" + (f".{t[2]}" if len(t) > 2 and t[2] is not None else "")
     if k == "loopval":
         return f"loopval#{t[1]}({t[2]})"
+    if k == "emit":
+        a = [show(x) for x in t[3]] + [f"{n}={show(v)}" for n, v in t[4]]
+        return f"{show(t[2])}#{t[1]}({', '.join(a)})"
     if k == "carried":
         return f"{t[2]}'"
     if k == "foreach":
@@ -235,7 +238,9 @@ class Outcome:
         """Ends in raise, or logged at error level / called exit()."""
         if self.exit and self.exit[0] == "raise":
             return True
-        for e in all_effects(self.state, self.state.effects):
+        for e in self.state.effects:
+            while e[0] == "inloop":
+                e = e[2]
             if e[0] == "call" and is_error_log(e[1]):
                 return True
             if e[0] == "exit":
@@ -286,7 +291,8 @@ class Evaluator:
     def __init__(self, repo: Repo, module: str, cls: Optional[str] = None,
                  rewrite: Optional[Callable[[Term], Optional[Term]]] = None,
                  max_depth: int = 4, inline_static: bool = False,
-                 opaque_methods: Tuple[str, ...] = (), inline_ctors: Tuple[str, ...] = ()):
+                 opaque_methods: Tuple[str, ...] = (), inline_ctors: Tuple[str, ...] = (),
+                 effect_methods: Tuple[str, ...] = ()):
         self.repo = repo
         self.module = module
         self.cls = cls
@@ -295,6 +301,7 @@ class Evaluator:
         self.inline_static = inline_static
         self.opaque_methods = set(opaque_methods)
         self.inline_ctors = set(inline_ctors)
+        self.effect_methods = set(effect_methods)
         self.depth = 0
         self.max_outcomes = 4000
         self.imports = self._imports(module)
@@ -467,7 +474,10 @@ class Evaluator:
 
     def st_If(self, node, st):
         res: List[Outcome] = []
-        for s, b in self.branch(node.test, st):
+        for s, b, ex in self.branch(node.test, st):
+            if ex is not None:
+                res.append(Outcome(s, ex))
+                continue
             res.extend(self.exec_block(node.body if b else node.orelse, s))
         return res
 
@@ -709,32 +719,37 @@ class Evaluator:
 
     # ------------------------------------------------------------------
     # conditions
-    def branch(self, test: ast.expr, st: State) -> List[Tuple[State, bool]]:
+    def branch(self, test: ast.expr, st: State) -> List[Tuple[State, bool, Optional[tuple]]]:
         """Fork `st` on the truth of `test`; BoolOps are forked operand by
-        operand (short circuit) so that facts stay atomic."""
+        operand (short circuit) so that facts stay atomic.  Returns
+        (state, truth, exit) triples; exit is a raise exit when evaluating the
+        condition itself raises."""
         if isinstance(test, ast.BoolOp):
             is_and = isinstance(test.op, ast.And)
-            res: List[Tuple[State, bool]] = []
+            res: List[Tuple[State, bool, Optional[tuple]]] = []
             live = [st]
             for i, operand in enumerate(test.values):
                 nxt = []
                 for s in live:
-                    for s2, b in self.branch(operand, s):
-                        if b == (not is_and):
-                            res.append((s2, b))       # short circuit
+                    for s2, b, ex in self.branch(operand, s):
+                        if ex is not None:
+                            res.append((s2, b, ex))
+                        elif b == (not is_and):
+                            res.append((s2, b, None))       # short circuit
                         else:
                             nxt.append(s2)
                 live = nxt
-            res.extend((s, is_and) for s in live)
+            res.extend((s, is_and, None) for s in live)
             return res
         if isinstance(test, ast.UnaryOp) and isinstance(test.op, ast.Not):
-            return [(s, not b) for s, b in self.branch(test.operand, st)]
+            return [(s, not b, ex) for s, b, ex in self.branch(test.operand, st)]
         outs = self.eval_forking(test, st)
         res = []
         for s, t, ex in outs:
             if ex:
-                raise AnalysisError(f"condition raises: {norm(test)}")
-            res.extend(self.branch_term(t, s))
+                res.append((s, False, ex))
+                continue
+            res.extend((s2, b, None) for s2, b in self.branch_term(t, s))
         return res
 
     def branch_term(self, t: Term, st: State) -> List[Tuple[State, bool]]:
@@ -813,6 +828,9 @@ class Evaluator:
             r = self._isinstance(atom[1], atom[2], st)
             if r is not None:
                 return r == pol
+        if atom[0] == "in":
+            if atom[1] in st.suffix.get(atom[2], ()):
+                return pol
         if atom in st.facts:
             return st.facts[atom] == pol
         return None
@@ -950,6 +968,15 @@ class Evaluator:
             if kw.arg is None:
                 raise AnalysisError(f"**kwargs in inlined call {norm(node)}")
             args[kw.arg] = self.eval(kw.value, st)
+        defaults = param_defaults(fn)
+        special = ([fn.args.vararg.arg] if fn.args.vararg else []) + ([fn.args.kwarg.arg] if fn.args.kwarg else [])
+        missing = [p for p in params if p not in args and p not in defaults and p not in special]
+        if missing or (i > len(pos) and not fn.args.vararg):
+            what = f"{fn.name}() missing {missing}" if missing else f"{fn.name}() takes {len(pos)} positional arguments but {i} were given"
+            st.effects.append(("crash", "TypeError", what))
+            exc = ("call", glob("TypeError"), (const(what),), ())
+            st.effects.append(("raise", exc))
+            return [(st, NONE, ("raise", exc))]
         self.depth += 1
         try:
             outs = self.run_function(fn, args, st, cls=cls_name)
@@ -1199,6 +1226,12 @@ class Evaluator:
             if fn_t[0] == "global":
                 return self._global_call(fn_t[1], args, kws, st, stmt_pos, node)
             t = ("call", ("attr", recv, f.attr), tuple(args), tuple(sorted(kws.items())))
+            if f.attr in self.effect_methods:
+                # emission API: every call is an ordered effect and yields a distinct object
+                n = st.new_id()
+                t = ("emit", n, ("attr", recv, f.attr), tuple(args), tuple(sorted(kws.items())))
+                st.effects.append(("emit", t))
+                return t
             if stmt_pos or f.attr in MUTATORS:
                 st.effects.append(("call", t))
             return t
